@@ -118,6 +118,13 @@ MUTANTS = [
      "        SpaceAfterFunctionNames::Never | SpaceAfterFunctionNames::Calls => {\n            Token::new(TokenType::spaces(0))",
      "        SpaceAfterFunctionNames::Never | SpaceAfterFunctionNames::Calls => {\n            Token::new(TokenType::spaces(1))",
      "create_function_definition_trivia"),
+    ("typaren-drop-union-guard", "C02", "src/formatters/luau.rs",
+     "                || context.within_table_indexer\n                || context.contains_union =>", "                || context.within_table_indexer =>",
+     "drops-parens Intersection under contains_union"),
+    ("typaren-union-operand-unmarked", "C02", "src/formatters/luau.rs",
+     "                    Pair::End(right) => Pair::End(format_type_info_internal(\n                        ctx,\n                        right,\n                        context.mark_contains_union(),",
+     "                    Pair::End(right) => Pair::End(format_type_info_internal(\n                        ctx,\n                        right,\n                        context,",
+     "Union-operand-without-mark_contains_union"),
     ("regex-drop-z", "C04", "src/formatters/general.rs",
      'r#"^[^\\n\\r"\'0-9\\\\abfnrtuvxz]$"#', 'r#"^[^\\n\\r"\'0-9\\\\abfnrtuvx]$"#', "missing=z"),
     ("sort-unstable", "C12", "src/sort_requires.rs",
